@@ -233,6 +233,313 @@ def check_crash_run(ctx, d, exe, datadir, gt, nt, killer, kill_at, mode, rc, err
     return bad, nrec
 
 
+# --------------------------------------------------------------------------------------------------
+# e2e: fork / exec / exit of children and of non-initial tasks (a tid that lives on in a new image)
+# --------------------------------------------------------------------------------------------------
+# roles (function family r = f{8r}..f{8r+7}): 0 initial task, 1 forked child, 2 extra thread, 3 new image after
+# exec, 4 grandchild.  Every image / thread takes a slot of the shared ground-truth file in the order it starts;
+# the expected content of <tid>.dat is the concatenation, in slot order, of what the slots with that tid ran.
+EXEC_SRC = r"""
+#define _GNU_SOURCE
+#include <stdio.h>
+#include <stdlib.h>
+#include <stdint.h>
+#include <string.h>
+#include <pthread.h>
+#include <unistd.h>
+#include <fcntl.h>
+#include <signal.h>
+#include <sys/mman.h>
+#include <sys/syscall.h>
+#include <sys/wait.h>
+#define NI __attribute__((noinline))
+#define NOINST __attribute__((no_instrument_function))
+#define MAXEV 60000
+#define NSLOT 8
+struct slot { volatile uint32_t tid, n, done, role; volatile uint8_t ev[MAXEV]; };
+struct shared { volatile uint32_t nslots, go, pad[2]; struct slot slots[NSLOT]; };
+static struct shared *sh;
+static __thread struct slot *me;
+static char *self_exe, *gt_path;
+static int npost, post_kill;
+static NOINST void new_slot(int role)
+{
+	uint32_t i = __sync_fetch_and_add(&sh->nslots, 1);
+	me = &sh->slots[i < NSLOT ? i : NSLOT - 1];
+	me->role = role;
+	me->tid = syscall(SYS_gettid);
+}
+static inline __attribute__((always_inline)) void ev(int code)
+{
+	struct slot *l = me;
+	uint32_t n = l->n;
+	if (n < MAXEV) l->ev[n] = code;
+	__sync_synchronize();
+	l->n = n + 1;
+}
+static NOINST void do_exec(void)
+{
+	char a[16], b[16];
+	snprintf(a, sizeof(a), "%d", npost);
+	snprintf(b, sizeof(b), "%d", post_kill);
+	execl(self_exe, self_exe, gt_path, "post", "0", a, b, (char *)0);
+	_exit(127);
+}
+%(funcs)s
+static NOINST void *thread_exec(void *arg)
+{
+	new_slot(2);
+	f16((int)(long)arg);
+	f19(0);
+	return 0;
+}
+static NOINST void spin_until_killed(int base)
+{
+	/* keeps making traced calls until another thread's exec takes the process away */
+	for (int i = 0; i < 200000; i++) {
+		if (base == 0) f1(i); else f9(i);
+		sh->go = 1;
+		usleep(20);
+	}
+}
+int main(int argc, char **argv)
+{
+	int fd, scen, npre;
+	if (argc < 6) return 98;
+	self_exe = argv[0];
+	gt_path = argv[1];
+	npre = atoi(argv[3]);
+	npost = atoi(argv[4]);
+	post_kill = atoi(argv[5]);
+	fd = open(gt_path, O_RDWR | O_CREAT, 0600);
+	if (fd < 0 || ftruncate(fd, sizeof(struct shared)) < 0) return 99;
+	sh = mmap(0, sizeof(struct shared), PROT_READ | PROT_WRITE, MAP_SHARED, fd, 0);
+	if (!strcmp(argv[2], "post")) {
+		new_slot(3);
+		f24(npost);
+		me->done = 1;
+		return 0;
+	}
+	scen = atoi(argv[2]);
+	new_slot(0);
+	switch (scen) {
+	case 1: /* exec from the initial task */
+		f0(npre);
+		f3(0);
+		break;
+	case 2: case 5: case 6: case 7: { /* forked child: exec / _exit / SIGKILL / abort */
+		pid_t pid;
+		f0(2);
+		pid = fork();
+		if (pid == 0) {
+			new_slot(1);
+			f8(npre);
+			if (scen == 2) f11(0);
+			else f12(scen);
+		}
+		if (scen != 2) f0(npost);   /* the parent goes on: more than one buffer */
+		waitpid(pid, 0, 0);
+		f0(3);
+		me->done = 1;
+		break;
+	}
+	case 3: { /* a non-initial thread of the initial process execs */
+		pthread_t t;
+		pthread_create(&t, 0, thread_exec, (void *)(long)npre);
+		spin_until_killed(0);
+		break;
+	}
+	case 4: { /* a non-initial thread of a forked child execs */
+		pid_t pid;
+		f0(2);
+		pid = fork();
+		if (pid == 0) {
+			pthread_t t;
+			new_slot(1);
+			f8(2);
+			pthread_create(&t, 0, thread_exec, (void *)(long)npre);
+			spin_until_killed(1);
+		}
+		waitpid(pid, 0, 0);
+		f0(3);
+		me->done = 1;
+		break;
+	}
+	case 8: { /* grandchild execs */
+		pid_t pid;
+		f0(2);
+		pid = fork();
+		if (pid == 0) {
+			pid_t p2;
+			new_slot(1);
+			f8(2);
+			p2 = fork();
+			if (p2 == 0) {
+				new_slot(4);
+				f32(npre);
+				f35(0);
+			}
+			waitpid(p2, 0, 0);
+			f8(3);
+			me->done = 1;
+			_exit(0);
+		}
+		waitpid(pid, 0, 0);
+		f0(3);
+		me->done = 1;
+		break;
+	}
+	}
+	return 0;
+}
+"""
+
+EXEC_SCEN = {1: "exec from the initial task", 2: "fork, exec in the child", 3: "exec from a non-initial thread",
+             4: "fork, exec from a thread of the child", 5: "fork, _exit in the child", 6: "fork, SIGKILL in the child",
+             7: "fork, abort in the child", 8: "exec in a grandchild"}
+
+
+def gen_exec_program():
+    funcs = []
+    for r in range(5):
+        b = 8 * r
+        protos = "".join("NI void f%d(int x);\n" % (b + i) for i in range(5))
+        body = protos
+        body += "NI void f%d(int x) { ev(%d); ev(%d); }\n" % (b + 2, 2 * (b + 2), 2 * (b + 2) + 1)
+        body += "NI void f%d(int x) { ev(%d); f%d(x); if (x & 1) f%d(x + 1); ev(%d); }\n" % (
+            b + 1, 2 * (b + 1), b + 2, b + 2, 2 * (b + 1) + 1)
+        if r == 3:
+            # the new image; optionally kills itself after `post_kill` calls
+            body += ("NI void f%d(int n) { ev(%d); for (int i = 0; i < n; i++) { f%d(i); "
+                     "if (post_kill && i == post_kill) kill(getpid(), SIGKILL); } ev(%d); }\n" % (b, 2 * b, b + 1, 2 * b + 1))
+        else:
+            body += "NI void f%d(int n) { ev(%d); for (int i = 0; i < n; i++) f%d(i); ev(%d); }\n" % (b, 2 * b, b + 1, 2 * b + 1)
+        body += "NI void f%d(int x) { ev(%d); do_exec(); }\n" % (b + 3, 2 * (b + 3))
+        body += ("NI void f%d(int how) { ev(%d); if (how == 5) _exit(3); if (how == 6) kill(getpid(), SIGKILL); "
+                 "if (how == 7) abort(); for (;;) pause(); }\n" % (b + 4, 2 * (b + 4)))
+        funcs.append(body)
+    return EXEC_SRC.replace("%(funcs)s", "".join(funcs))
+
+
+def read_slots(path, nslot=8, maxev=60000):
+    import struct
+    raw = open(path, "rb").read()
+    n = min(struct.unpack_from("<I", raw, 0)[0], nslot)
+    out = []
+    sz = 16 + maxev
+    for k in range(n):
+        tid, cnt, done, role = struct.unpack_from("<IIII", raw, 16 + k * sz)
+        out.append({"tid": tid, "n": cnt, "done": done, "role": role,
+                    "ev": list(raw[16 + k * sz + 16: 16 + k * sz + 16 + min(cnt, maxev)])})
+    return out
+
+
+def slot_expectation(scen, slot, post_kill):
+    """-> 'full' (every logged event must be in the file: the task ended normally, or flushed its open calls
+    before exec / abort) or 'prefix' (the task was taken away: whole-record prefix with the usual lower bound)"""
+    r = slot["role"]
+    if r == 3:
+        return "prefix" if post_kill else "full"
+    if scen == 1:
+        return "full"
+    if scen in (2, 5, 6, 7):
+        if r == 0:
+            return "full"
+        return {2: "full", 5: "prefix", 6: "prefix", 7: "full"}[scen]
+    if scen == 3:
+        return "prefix" if r == 0 else "full"
+    if scen == 4:
+        return {0: "full", 1: "prefix", 2: "full"}[r]
+    if scen == 8:
+        return "full"
+    return "prefix"
+
+
+def check_exec_run(ctx, exe, datadir, slots, scen, post_kill, err):
+    bad = []
+    syms = c03.sym_ranges(exe)
+    for f in ("info", "task.txt"):
+        if not os.path.exists(os.path.join(datadir, f)) or os.path.getsize(os.path.join(datadir, f)) == 0:
+            bad.append("data directory incomplete: no %s" % f)
+    if not any(s["role"] == 3 for s in slots) and scen in (1, 2, 3, 4, 8):
+        bad.append("the new image never ran (exec failed?)")
+    by_tid = {}
+    for s in slots:
+        by_tid.setdefault(s["tid"], []).append(s)
+    nrec = 0
+    for tid, ss in by_tid.items():
+        f = os.path.join(datadir, "%d.dat" % tid)
+        if not os.path.exists(f):
+            if any(slot_expectation(scen, s, post_kill) == "full" and s["ev"] for s in ss):
+                bad.append("task %d: no data file" % tid)
+            continue
+        codes, problems, n = c03.decode_dat(f, syms)
+        nrec += n
+        bad += ["task %d: %s" % (tid, p) for p in problems]
+        own = [c for c in codes if isinstance(c, int)]
+        if any(isinstance(c, tuple) and c[0] == "LOST" for c in codes):
+            bad.append("task %d: LOST record" % tid)
+        pos = 0
+        for s in ss:
+            fam = s["role"]
+            j = pos
+            while j < len(own) and (own[j] // 2) // 8 == fam:
+                j += 1
+            got = own[pos:j]
+            ev = s["ev"]
+            kind = slot_expectation(scen, s, post_kill)
+            what = "task %d, %s (role %d)" % (tid, {0: "initial task", 1: "forked child", 2: "thread", 3: "image after exec",
+                                                    4: "grandchild"}[fam], fam)
+            if got != ev[:len(got)]:
+                i = next((i for i, (a, b) in enumerate(zip(got, ev)) if a != b), min(len(got), len(ev)))
+                bad.append("%s: file is not a prefix of the executed calls (record %d: file %s, executed %s)" % (
+                    what, i, got[i:i + 4], ev[i:i + 4]))
+            elif kind == "full":
+                need = len(ev) if (not ev or ev[-1] % 2 == 0 or s["done"]) else len(ev) - 1
+                if len(got) < need:
+                    bad.append("%s: %d of its %d records are in the file at this position%s" % (
+                        what, len(got), need, " (the records made before the exec must come first)" if fam != 3 else ""))
+            else:
+                low = 0
+                for i in range(len(ev) - 1):
+                    if ev[i] % 2 == 1:
+                        low = i + 1
+                if len(got) < low:
+                    bad.append("%s: file has %d records, at least %d were complete when it stopped" % (what, len(got), low))
+            pos = j
+        if pos != len(own):
+            fam = (own[pos] // 2) // 8
+            bad.append("task %d: %d record(s) of role %d follow out of order at record %d (records of an earlier image "
+                       "after those of a later one)" % (tid, len(own) - pos, fam, pos))
+    uftrace = os.path.join(ctx.src, "uftrace")
+    for cmd in (["replay"], ["report"], ["dump"], ["info"]):
+        r = subprocess.run(["timeout", "-s", "KILL", "30", uftrace] + cmd + ["--no-pager", "-d", datadir],
+                           stdout=subprocess.PIPE, stderr=subprocess.PIPE, text=True, errors="replace")
+        if r.returncode != 0:
+            bad.append("uftrace %s rejects the directory: rc=%d %s" % (cmd[0], r.returncode, r.stderr[-200:]))
+        if "inverted time" in r.stdout or "inverted time" in r.stderr:
+            bad.append("uftrace %s reports 'inverted time: broken data?'" % cmd[0])
+    return bad, nrec
+
+
+def shm_leftovers(datadir, remove=True):
+    """session ids of the run -> files left in /dev/shm (removed: a cluttered /dev/shm slows everything down)"""
+    left = []
+    try:
+        txt = open(os.path.join(datadir, "task.txt")).read()
+    except OSError:
+        return left
+    for sid in set(re.findall(r"sid=([0-9a-f]{16})", txt)):
+        for f in glob.glob("/dev/shm/uftrace-%s-*" % sid):
+            left.append(f)
+            if remove:
+                try:
+                    os.unlink(f)
+                except OSError:
+                    pass
+    return left
+
+
 def run(ctx):
     ok, problems = C.prove(ctx, "C04")
     if not ok:
